@@ -78,7 +78,7 @@ Proof.
     binds H. destruct x as [m' c']. injection H as <-. apply only_np_ok in Hx. destruct Hx as [_ Hx].
     exists F, P, T, D. cbn [s_hdr s_mask s_cz mk_state fst snd]. repeat (split; [assumption|]).
     unfold focus_np in Hx. destruct (F * P * T =? 0); [discriminate|]. destruct (D <? 2); [discriminate|].
-    destruct (ex_lt D _); [discriminate|]. injection Hx as <- <-. exact HC.
+    destruct (ex_lt (Nat.min D 3) _); [discriminate|]. injection Hx as <- <-. exact HC.
   - (* copy *)
     binds H. destruct x as [m' c']. injection H as <-.
     exists F, P, T, D. cbn [s_hdr s_mask s_cz mk_state fst snd]. repeat (split; [assumption|]).
